@@ -473,7 +473,8 @@ func (priv *DSAPrivateKey) Import(in []byte) bool {
 		in = in[end:]
 
 		if len(hexBytes)&1 != 0 {
-			return false
+			// ExportKeysToFile writes numbers in minimal form, which can have an odd number of digits
+			hexBytes = append([]byte{'0'}, hexBytes...)
 		}
 
 		mpiBytes := make([]byte, len(hexBytes)/2)
